@@ -251,7 +251,7 @@ def evaluate(ctx, cases):
         elif gs == "exceeds" and "error" not in inl:
             ctx.violation(c, "in-line accepts an enum whose values exceed every integer type for gcc: " + r["decl"])
         # ---- model vs implementation (all cases, including the ones gcc rejects)
-        if all(v is None or True for _n, _e, v in c["items"]):
+        if True:      # every case goes to the model (values are already evaluated integers)
             decls = clist(["None" if e is None else "(Some %s)" % cz(int(v)) for _n, e, v in c["items"]])
             inp = cpair(cpair(decls, clist([cstr(n) for n in names])), clist([cz(q) for q in qs]))
             if "error" in inl:
@@ -308,9 +308,12 @@ MANIFEST = dict(
          "long) and raises CDefError exactly when none exists; the regenerated value assignment of _build_enum_type is "
          "C11 6.7.2.2p3; the dictionary built by b_new_enum_type from last to first maps a value to the first declared "
          "name, so ffi.string() is that name or the decimal number; casting stores the low bytes and reading them back is "
-         "wrap (C10_cast_store_is_wrap), so ffi.string(ffi.cast(e, x)) is as stated for x in range (C10_string_of_cast); the two (size, signed)->index encodings agree. "
-         "Random and boundary declarations are compared with gcc (sizeof, signedness, values, strings) in every mode.",
-    note="Trusted: Coq kernel; the shape-matching drivers; Spec.v as a description of gcc (checked against gcc on the "
-         "sampled declarations only); hand model of the C dictionary code (differential test). Theorems closed under "
+         "wrap (C10_cast_store_is_wrap), so ffi.string(ffi.cast(e, x)) is as stated for x in range (C10_string_of_cast) and, for every integer x, is decided by the wrapped value (C10_string_of_cast_all); the two (size, signed)->index encodings agree. "
+         "Random and boundary declarations are compared with gcc (sizeof, signedness, values, strings) in in-line and "
+         "out-of-line ABI mode on every run, in API mode in the thorough tier only. Not proved (correspondence only): "
+         "enumerators referring to earlier constants, sizeof(enum)/sign expression of API mode, OP_ENUM realisation.",
+    note="Trusted: Coq kernel; the shape-matching drivers; Spec.v as a description of gcc (tied only transitively: "
+         "Spec = model by theorem, model = implementation = gcc by correspondence on the sampled declarations); the C "
+         "loop direction of b_new_enum_type is hand-copied (no C regeneration); hand model of the C dictionary code (differential test). Theorems closed under "
          "the global context.",
     design_ref="DESIGN.md §4 C10")
